@@ -474,7 +474,18 @@ fn bin_case(rng: &mut Rng, rec: &mut Recorder) -> Vec<u8> {
     let b = random_id(rng);
     let mut w = vec![32u8];
     w.extend_from_slice(&b);
-    let name = match rng.below(9) {
+    let name = match rng.below(11) {
+        9 | 10 => {
+            // a well-formed byte string of the WRONG length (shorter or longer than 32) with all its
+            // bytes present: must be rejected, not truncated or padded
+            let n = *rng.pick(&[0usize, 1, 16, 31, 33, 34, 40, 64, 100]);
+            w = vec![n as u8];
+            w.extend(rng.bytes(n));
+            if rng.chance(1, 3) {
+                w.extend(rng.bytes(3));
+            }
+            "complete-wrong-length"
+        }
         0 => {
             w.truncate(rng.below(33) as usize);
             "truncated"
